@@ -248,25 +248,52 @@ def hygiene():
 # ---------------------------------------------------------------------------------------------
 # Rust harness
 
+def harness_dir():
+    """The harness crate to build: harness/ itself for /repo; for another checkout (SV_REPO, used to try
+    a changed source tree without touching /repo) a copy under build/ with the path deps rewritten."""
+    if REPO == "/repo":
+        return HARNESS, os.path.join(BUILD, "cargo")
+    import shutil
+    tag = hashlib.sha256(REPO.encode()).hexdigest()[:8]
+    d = os.path.join(BUILD, "harness-" + tag)
+    os.makedirs(d, exist_ok=True)
+    tgt = os.path.join(BUILD, "cargo-" + tag)
+    for root, dirs, files in os.walk(HARNESS):
+        rel = os.path.relpath(root, HARNESS)
+        os.makedirs(os.path.join(d, rel), exist_ok=True)
+        for f in files:
+            if f == "Cargo.lock":
+                continue
+            src, dst = os.path.join(root, f), os.path.join(d, rel, f)
+            txt = open(src, "rb").read()
+            if f in ("Cargo.toml", "config.toml"):
+                txt = txt.replace(b"/repo/", REPO.encode() + b"/").replace(b"/verif/build/cargo", tgt.encode())
+            if not os.path.exists(dst) or open(dst, "rb").read() != txt:
+                open(dst, "wb").write(txt)
+    return d, tgt
+
+
 def cargo_build(bins, timeout=2400):
+    import shutil
+    hdir, _ = harness_dir()
     lock_src = os.path.join(REPO, "Cargo.lock")
-    lock_dst = os.path.join(HARNESS, "Cargo.lock")
+    if not os.path.exists(lock_src):
+        lock_src = "/repo/Cargo.lock"   # a git worktree of /repo does not carry the untracked lock file
+    lock_dst = os.path.join(hdir, "Cargo.lock")
     if not os.path.exists(lock_dst):
-        import shutil
         shutil.copy(lock_src, lock_dst)
     cmd = ["timeout", str(timeout), "cargo", "build", "--offline"]
     for b in bins:
         cmd += ["--bin", b]
-    rc, out = sh(cmd, cwd=HARNESS, timeout=timeout + 30)
+    rc, out = sh(cmd, cwd=hdir, timeout=timeout + 30)
     if rc != 0 and "lock file" in out and "needs to be updated" in out:
-        import shutil
         shutil.copy(lock_src, lock_dst)
-        rc, out = sh(cmd, cwd=HARNESS, timeout=timeout + 30)
+        rc, out = sh(cmd, cwd=hdir, timeout=timeout + 30)
     return rc == 0, out
 
 
 def harness_bin(name):
-    return os.path.join(BUILD, "cargo", "debug", name)
+    return os.path.join(harness_dir()[1], "debug", name)
 
 
 def run_harness(ctx, name, cases, tag="cases", timeout=900, args=()):
